@@ -1,0 +1,186 @@
+//go:build verif
+// +build verif
+
+package replication
+
+// Bounded stand-in for binlogEvent.TableMap (the TABLE_MAP_EVENT body parser). The deductive generator does not bring
+// this function to a proof in reasonable time (zz_vc_rows_verif.go keeps the contract), so the natively compiled
+// contract -- vc_binlogEvent_TableMap_requires and every vc_binlogEvent_TableMap_ensures_* clause -- is checked against
+// the real function on generated well-formed bodies instead. This is a bounded check, reported as such and never
+// counted as proved. Bound: every type tuple of 0..2 columns over the 31 supported column types, both table-id
+// widths, with and without trailing optional metadata; plus VCB_CASES (default 4000) seeded random bodies with
+// 0..40 columns, names of 0..255 bytes, one- and three-byte forms of the two length-encoded counts, random metadata
+// bytes and 0..24 trailing bytes.
+
+import (
+	"encoding/hex"
+	"fmt"
+	"math/rand"
+	"os"
+	"strconv"
+	"testing"
+)
+
+var vcbTypes = []byte{TypeDecimal, TypeTiny, TypeShort, TypeLong, TypeNull, TypeTimestamp, TypeLongLong, TypeInt24, TypeDate,
+	TypeTime, TypeDateTime, TypeYear, TypeNewDate, TypeFloat, TypeDouble, TypeTimestamp2, TypeDateTime2, TypeTime2, TypeJSON,
+	TypeTinyBlob, TypeMediumBlob, TypeLongBlob, TypeBlob, TypeGeometry, TypeNewDecimal, TypeEnum, TypeSet, TypeString,
+	TypeVarchar, TypeBit, TypeVarString}
+
+func vcbEnvInt(name string, def int) int {
+	if v, err := strconv.Atoi(os.Getenv(name)); err == nil && v > 0 {
+		return v
+	}
+	return def
+}
+
+func vcbLenEnc(n int, wide bool) []byte {
+	if wide || n >= 0xfb {
+		return []byte{0xfc, byte(n), byte(n >> 8)}
+	}
+	return []byte{byte(n)}
+}
+
+// vcbBody builds header + body of a table map event from its parts (written from the documented layout, not with
+// the package's own builder).
+func vcbBody(rng *rand.Rand, idw int, db, name string, types []byte, wideCount, wideMeta bool, trailing int) (binlogEvent, BinlogFormat) {
+	f := BinlogFormat{FormatVersion: 4, ServerVersion: "5.7.0", HeaderLength: 19, ChecksumAlgorithm: 0}
+	f.HeaderSizes = make([]byte, 40)
+	for i := range f.HeaderSizes {
+		f.HeaderSizes[i] = byte(rng.Intn(40))
+	}
+	f.HeaderSizes[eTableMapEvent-1] = 8
+	if idw == 4 {
+		f.HeaderSizes[eTableMapEvent-1] = 6
+	}
+	ev := make([]byte, 19)
+	for i := range ev {
+		ev[i] = byte(rng.Intn(256))
+	}
+	ev[4] = eTableMapEvent
+	for i := 0; i < idw+2; i++ { // table id, flags
+		ev = append(ev, byte(rng.Intn(256)))
+	}
+	ev = append(ev, byte(len(db)))
+	ev = append(ev, db...)
+	ev = append(ev, 0, byte(len(name)))
+	ev = append(ev, name...)
+	ev = append(ev, 0)
+	ev = append(ev, vcbLenEnc(len(types), wideCount)...)
+	ev = append(ev, types...)
+	var meta []byte
+	for _, t := range types {
+		for k := 0; k < specMetaLen(t); k++ {
+			meta = append(meta, byte(rng.Intn(256)))
+		}
+	}
+	ev = append(ev, vcbLenEnc(len(meta), wideMeta)...)
+	ev = append(ev, meta...)
+	for k := 0; k < (len(types)+7)/8+trailing; k++ {
+		ev = append(ev, byte(rng.Intn(256)))
+	}
+	return binlogEvent(ev), f
+}
+
+func vcbName(rng *rand.Rand) string {
+	n := rng.Intn(12)
+	switch rng.Intn(20) {
+	case 0:
+		n = 0
+	case 1:
+		n = 255
+	case 2:
+		n = 64 + rng.Intn(190)
+	}
+	b := make([]byte, n)
+	for i := range b {
+		b[i] = byte(rng.Intn(256))
+	}
+	return string(b)
+}
+
+func TestVCBoundedTableMap(t *testing.T) {
+	rng := rand.New(rand.NewSource(int64(vcbEnvInt("VERIF_SEED", 1))))
+	type clause struct {
+		name string
+		f    func(ev binlogEvent, f BinlogFormat, tm *TableMap, err error) bool
+	}
+	clauses := []clause{{"ok", vc_binlogEvent_TableMap_ensures_ok}, {"names", vc_binlogEvent_TableMap_ensures_names},
+		{"types", vc_binlogEvent_TableMap_ensures_types}, {"metadata", vc_binlogEvent_TableMap_ensures_metadata},
+		{"nulls", vc_binlogEvent_TableMap_ensures_nulls}}
+	failed := map[string]string{}
+	cases, missed := 0, 0
+	one := func(ev binlogEvent, f BinlogFormat) {
+		if !vc_binlogEvent_TableMap_requires(ev, f) {
+			missed++
+			return
+		}
+		cases++
+		input := fmt.Sprintf("idw=%d event=%s", specTMidw(f), hex.EncodeToString(ev))
+		var tm *TableMap
+		var err error
+		func() {
+			defer func() {
+				if r := recover(); r != nil && failed["panic"] == "" {
+					failed["panic"] = fmt.Sprintf("%s panic=%v", input, r)
+				}
+			}()
+			tm, err = ev.TableMap(f)
+		}()
+		for _, c := range clauses {
+			ok := false
+			func() {
+				defer func() { recover() }()
+				ok = c.f(ev, f, tm, err)
+			}()
+			if !ok {
+				if failed[c.name] == "" {
+					failed[c.name] = fmt.Sprintf("%s err=%v", input, err)
+				}
+				if c.name == "ok" {
+					break // no result to look at
+				}
+			}
+		}
+	}
+	// exhaustive part: every type tuple of 0..2 columns
+	for _, idw := range []int{6, 4} {
+		for _, trailing := range []int{0, 6} {
+			one(vcbBody(rng, idw, "db", "t", nil, false, false, trailing))
+			for _, a := range vcbTypes {
+				one(vcbBody(rng, idw, "db", "t", []byte{a}, false, false, trailing))
+				for _, b := range vcbTypes {
+					one(vcbBody(rng, idw, "d", "", []byte{a, b}, false, false, trailing))
+				}
+			}
+		}
+	}
+	// seeded random part
+	for i := vcbEnvInt("VCB_CASES", 4000); i > 0; i-- {
+		n := rng.Intn(9)
+		if rng.Intn(8) == 0 {
+			n = rng.Intn(41)
+		}
+		types := make([]byte, n)
+		for k := range types {
+			types[k] = vcbTypes[rng.Intn(len(vcbTypes))]
+		}
+		idw := 6
+		if rng.Intn(4) == 0 {
+			idw = 4
+		}
+		one(vcbBody(rng, idw, vcbName(rng), vcbName(rng), types, rng.Intn(6) == 0, rng.Intn(6) == 0, rng.Intn(3)*rng.Intn(13)))
+	}
+	for _, c := range append(clauses, clause{name: "panic"}) {
+		n := 0
+		if failed[c.name] != "" {
+			n = 1
+		}
+		fmt.Printf("VCBOUNDED unit=binlogEvent.TableMap clause=%s cases=%d failed=%d %s\n", c.name, cases, n, failed[c.name])
+	}
+	if missed*20 > cases {
+		t.Errorf("generator: %d of %d bodies do not satisfy the contract's requires (vacuity guard)", missed, missed+cases)
+	}
+	if len(failed) > 0 {
+		t.Fail()
+	}
+}
